@@ -255,6 +255,8 @@ inductive ROp where
   | occIns (k : Key) (v : Nat) | occRem (k : Key) | vacIns (k : Key) (v : Nat)
   | push | pop | parGet (d : Nat) (k : Key) | parIns (d : Nat) (k : Key) (v : Nat)
   | multi (ks : List Key) (d : Nat) | req (k : Key) | dump
+  -- value access next to a live guard on the same type (guard acquired, access, guard dropped)
+  | gset (k : Key) (v : Nat) | gget (k : Key)
   deriving Repr
 
 /-- What the lock probes (`try_borrow_mut` / `try_borrow`) can tell about a cell. -/
@@ -383,6 +385,14 @@ def step (r : Reg) : ROp → Reg × Out
     | .error e => (r, .err e)
   | .req k => (r, if contains r k then .ok else .err .required)
   | .dump => (r, .dump (r.map Scope.view))
+  | .gset k v =>                           -- `let g = try_borrow::<T>()?; let o = set_value::<T>(v); drop(g); o`
+    match tryBorrow r k with
+    | .error e => (r, .err e)
+    | .ok (r1, i) => let (r2, o) := setValue r1 k v; (releaseAt r2 i k false, .ofOpt o)
+  | .gget k =>                             -- `let g = try_borrow_mut::<T>()?; let o = try_get_value::<T>(); drop(g); o`
+    match tryBorrowMut r k with
+    | .error e => (r, .err e)
+    | .ok (r1, i) => (releaseAt r1 i k true, .ofRes (tryGetValue r1 k))
 
 def run (r : Reg) : List ROp → Reg × List Out
   | [] => (r, [])
@@ -492,6 +502,9 @@ def specStep (sp : Spec) : ROp → Spec × Out
     else (sp, .err .multi)
   | .req k => (sp, if (sp.lookup k).isSome then .ok else .err .required)
   | .dump => (sp, .dump sp)
+  -- a conflicting access to a guarded type is refused and changes nothing (never redirected outwards)
+  | .gset k _ => (sp, match sp.lookup k with | some _ => .none | Option.none => .err .notFound)
+  | .gget k => (sp, match sp.lookup k with | some _ => .err .conflictImm | Option.none => .err .notFound)
 
 def specRun (sp : Spec) : List ROp → Spec × List Out
   | [] => (sp, [])
@@ -552,6 +565,8 @@ def ROp.parse? : Sexp → Option ROp
   | .list [.atom "multi", ks, d] => do pure (.multi (← keys? ks) (← nat? d))
   | .list [.atom "req", k] => (key? k).map .req
   | .list [.atom "dump"] => some .dump
+  | .list [.atom "gset", k, v] => do pure (.gset (← key? k) (← nat? v))
+  | .list [.atom "gget", k] => (key? k).map .gget
   | _ => Option.none
 
 def Err.toSexp : Err → Sexp
